@@ -7,3 +7,6 @@ import TradingVerif.Props.C14
 #print axioms TV.acq_side
 #print axioms TV.mid_spec
 #print axioms TV.mid_missing
+#print axioms TV.history_any_interleaving
+#print axioms TV.history_from_fresh
+#print axioms TV.last_update_spec
